@@ -29,7 +29,7 @@ CHECKS["C02"] = dict(
  design_ref="DESIGN.md 4.1, 5/C02")
 CHECKS["C03"] = dict(
  text="AurelCache.tla safety layer (ANY set of unfrozen entries older than one calculation may be evicted at any clean-up point; freeze_data between requests) checked exhaustively by TLC on a dependency-closed sub-graph: FrozenNeverEvicted, FrozenNeverAltered, AgeTableSubsetOfCache, OnlyWholeUnfrozenEntries, CountMonotone, PolicyRefinement, and termination of every request under fairness; the code's strain policy (period 1..3, memory threshold below the inputs) on the real extracted graph. Behaviours are replayed on the real AurelCore (frozen entries present and byte-identical, last_accessed subset of data, no exception from cleanup_cache, wall-clock guard, importance overrides) and every nested step is checked by TLC trace validation against the named invariants - also for every AurelCore instance created by the repository's own test files test_aurel_functions.py and test_over_time.py, recorded by a pytest plugin kept in /verif. The set-level abstraction CacheSafety.tla is refined by AurelCache (TLC property AbsSafety) and its invariant (frozen subset of data, age table subset of data, recently touched entries are aged) is shown INDUCTIVE by Apalache (Init => Inv, Inv /\\ Next => Inv', plus a negative control), which lifts the two bookkeeping clauses from TLC's request bound to any number of requests at the abstract level.",
- note="Safety layer exhaustive for <= 3 requests on a 6-request sub-graph; real graph exhaustive for <= 2 requests with the most aggressive settings; simulate beyond. Liveness only on the sub-graph; on the real code non-termination is caught by the wall-clock guard.",
+ note="freeze_data() and a load_data() call carrying only part of the frozen inputs may happen between requests (actions Freeze, Load). Safety layer exhaustive for <= 3 requests on a 6-request sub-graph; real graph exhaustive for <= 2 requests with the most aggressive settings; simulate beyond. Liveness only on the sub-graph; on the real code non-termination is caught by the wall-clock guard.",
  technique="TLA+ safety-layer/policy model of cache clean-up checked with TLC (safety + liveness); replay on the real code and TLC trace validation of every nested step",
  design_ref="DESIGN.md 4.1, 5/C03")
 CHECKS["C13"] = dict(
@@ -39,17 +39,17 @@ CHECKS["C13"] = dict(
  design_ref="DESIGN.md 4.2, 5/C13")
 CHECKS["C11"] = dict(
  text="Chunks.tla models how Carpet splits a grid function (nested rectilinear decompositions, ghost width, chunk numbering orders) and TLC checks that the generator is a partition and enumerates the decompositions (tensor-product and per-slab cuts exhaustively, fully nested by simulation); ETSim.tla models restart sequences with overlapping iteration ranges, layouts and levels, with the reference semantics of a read (latest restart wins, sorted unique iterations, matching times). Every state is materialised as a CarpetIOHDF5-shaped directory whose values encode (variable, restart, iteration, level, x, y, z); the real join_chunks/fixij and read_data (4 layouts) are compared bit-for-bit with the spec's Truth.",
- note="Grids 3x4x3 (quick) and 4x4x4 (thorough), ghost 1..3, <= 3-4 restarts. Output strides may differ between restarts. A one-file-per-process layout with a single chunk is not generated (Carpet does not write it). Extra columns returned for the rest of a file group are accepted. Trusted: the generator (validated by the spec-level partition invariant and by the reader itself on all layouts), h5py.",
+ note="Grids 3x4x3 (quick) and 4x4x4 (thorough), ghost widths 1..3 equal or different per axis, <= 3-4 restarts; every other request goes through the default split_per_it=True path. Output strides may differ between restarts. A one-file-per-process layout with a single chunk is not generated (Carpet does not write it). Extra columns returned for the rest of a file group are accepted. Trusted: the generator (validated by the spec-level partition invariant and by the reader itself on all layouts), h5py.",
  technique="TLA+ model of the simulation directory (decompositions, restarts) enumerated by TLC; every state materialised as HDF5 files and read with the real reader, compared bit-for-bit",
  design_ref="DESIGN.md 4.3, 5/C11")
 CHECKS["C12"] = dict(
  text="ReadCache.tla states the reference semantics of the per-iteration read cache over a fixed simulation (two restarts sharing an iteration, two levels): a read returns Truth whatever the history and leaves behind only entries that hold the data of the (variable, iteration, level, restart) they are filed under; TLC checks CacheWellFiled, CacheOnlyGrows, UncachedReadsLeaveNoTrace and enumerates read histories (all pairs over a reduced alphabet, simulated sequences of 4 over 80 queries: iteration subsets, component vs tensor names, levels, cached/uncached interleaved). Each history is replayed with the real read_data on generated directories in the four layouts; after every call each returned array is compared with the stored data and every dataset of every cache file is decoded and compared with what it is filed under.",
- note="Exhaustive for 2 reads over 18 queries, 3 reads over 9 (thorough), simulated beyond. The simulation directory is static during a history. Trusted: generator, h5py.",
+ note="Exhaustive for 2 reads over 48 queries (iteration subsets whose hash-set order is not ascending; component, tensor and mixed tensor+component names), 3 reads over 24 (thorough), simulated beyond. The simulation directory is static during a history. Trusted: generator, h5py.",
  technique="TLA+ reference model of the read cache enumerated by TLC; histories replayed on the real read_data with the on-disk cache decoded after every call",
  design_ref="DESIGN.md 4.2, 5/C12")
 CHECKS["C18"] = dict(
  text="Catalogue.tla models a simulation directory that grows by whole restarts (three shapes incl. single-iteration restarts, level-dependent strides, continuing or re-running from the previous start) and the catalogue state (append-only record list of iterations.txt, content.txt per restart) under every interleaving of iterations(skip_last)/read_iterations()/get_content(restart, overwrite) with new restarts; TLC checks append-only/no-duplicate/records-exist/IncrementalEqualsFresh and enumerates the behaviours. Each behaviour is replayed on generated directories: returned structures equal Scan(disk) per restart, iterations.txt and content.txt parse back to what was returned, repeated calls are identities, 'overall' covers exactly the union of the restarts' iterations, the incrementally built catalogue equals a fresh scan of a copy; simulation names contain 'restart', 'arange', 'rl'. Dataset-key, file-name and checkpoint-name parsing is inverted over enumerated component alphabets.",
- note="<= 3 restarts and 4 steps exhaustive (quick replays a 1-in-k subsample of ~2500 of the enumerated behaviours, thorough ~20000 plus simulated 7-step behaviours with 4 restarts). A raising first call leaves an empty iterations.txt which read_iterations() parses as {} (modelled, not asserted against). Restart directories are immutable once written.",
+ note="1, 2 or 12 refinement levels (two-digit level numbers), variable names with brackets. <= 3 restarts and 4 steps exhaustive (quick replays a 1-in-k subsample of ~2500 of the enumerated behaviours, thorough ~20000 plus simulated 7-step behaviours with 4 restarts). A raising first call leaves an empty iterations.txt which read_iterations() parses as {} (modelled, not asserted against). Restart directories are immutable once written.",
  technique="TLA+ model of the growing simulation directory and catalogue files enumerated by TLC; behaviours replayed on generated directories with the real iterations/read_iterations/get_content and the files re-parsed",
  design_ref="DESIGN.md 4.3, 5/C18")
 CHECKS["C14"] = dict(
